@@ -19,7 +19,7 @@ func init() { core.Register(c20{}) }
 func (c20) ID() string    { return "C20" }
 func (c20) Level() string { return "exploration" }
 func (c20) Rule() string {
-	return "cases = generated histories (rotated files, batches, values whose last bytes are zero, tombstones of keys ending in 0x00, adopted merges so that a hint file is in the directory, un-adopted merge directories) under both I/O types with 1..5 Backup calls interleaved with continued writing (in every third case all backups go into the SAME directory, which then already holds the previous backup, with merges adopted in between so that source files shrink); at each Backup the model is snapshotted; the copy is opened WHILE the source is still open (it must not carry the lock), dumped against the snapshot, written to and restarted (must not affect the source), and closed; the source then continues, deliberately with a value larger than the space left on the active file's last 4 KiB page, a multi-block value, enough data to rotate, and a restart, and is dumped against the model after each. Every case runs in a worker process: the death of the worker (SIGBUS on a truncated mapping) is a violation attributed to the open case. Non-trivial: >=2 backups, >=1 taken with >=3 data files and >=1 after an adopted merge; distinct = hash of (config, op list)"
+	return "cases = generated histories (rotated files, batches, values whose last bytes are zero, tombstones of keys ending in 0x00, adopted merges so that a hint file is in the directory, un-adopted merge directories) under both I/O types (every eighth case with the relative DirPath data, whose text re-occurs in every data-file name) with 1..5 Backup calls interleaved with continued writing (in every third case all backups go into the SAME directory, which then already holds the previous backup, with merges adopted in between so that source files shrink); at each Backup the model is snapshotted; the copy is opened WHILE the source is still open (it must not carry the lock), dumped against the snapshot, written to and restarted (must not affect the source), and closed; the source then continues, deliberately with a value larger than the space left on the active file's last 4 KiB page, a multi-block value, enough data to rotate, and a restart, and is dumped against the model after each. Every case runs in a worker process: the death of the worker (SIGBUS on a truncated mapping) is a violation attributed to the open case. Non-trivial: >=2 backups, >=1 taken with >=3 data files and >=1 after an adopted merge; distinct = hash of (config, op list)"
 }
 func (c20) Assumptions() []string {
 	return []string{"process death is attributed through the worker journal", "the copy is opened with the source's configuration and with the other I/O type alternately"}
@@ -50,6 +50,14 @@ func (c20) Run(c core.Case, w *core.Worker) core.Result {
 	res := core.Result{}
 	root := w.Dir("root")
 	dir := filepath.Join(root, "db")
+	if c.Index%8 == 7 {
+		// a relative data directory whose name re-occurs inside the data-file names ("data")
+		if old, err := os.Getwd(); err == nil && os.MkdirAll(root, 0755) == nil && os.Chdir(root) == nil {
+			defer os.Chdir(old)
+			root, dir = ".", "data"
+			res.Add("cases_with_relative_dirpath", 1)
+		}
+	}
 	io := mon.NewIOLog()
 	io.Track = dir
 	defer io.Install()()
